@@ -35,6 +35,10 @@ pub(crate) fn run() -> Result<(), Error> {
     LogBuilder::from(&env).setup(io::stderr());
 
     let cwd = env::current_dir()?;
+    if !ProcessState::exists(&env) {
+        // Nothing has been built here yet.
+        return Ok(());
+    }
     let mut ps = ProcessState::init(env)?;
     let env2 = ps.env().clone();
     let mut ptx = ProcessTransaction::new(&mut ps, TransactionBehavior::Deferred)?;
